@@ -181,6 +181,9 @@ impl Broker {
         if self.profile.ack_delay_max_ms == 0 { 0 } else { self.rng.range(0, self.profile.ack_delay_max_ms) }
     }
 
+    /// a PINGRESP has been scheduled and not yet delivered
+    pub fn pingresp_pending(&self) -> bool { self.queue.values().any(|b| b.len() == 2 && b[0] == 0xD0) }
+
     pub fn next_due(&self) -> Option<u64> {
         let q = self.queue.keys().next().map(|(t, _)| *t);
         let inbound = self.conn.as_ref().and_then(|c| if c.connack_ok && !c.dead && c.inbound_left > 0 { Some(c.next_inbound_at) } else { None });
